@@ -50,7 +50,7 @@ def _worker_run(arg):
         res['job_wall'] = time.time() - t0
         return res
     except BaseException as e:  # noqa
-        return {'job': repr(job), 'harness_error': f'{type(e).__name__}: {e}\n' + traceback.format_exc()[-3000:]}
+        return {'job': repr(job), 'harness_error': f'{type(e).__name__}: {e}\n' + traceback.format_exc()[-1500:]}
 
 
 def _jsonable(x):
@@ -249,7 +249,7 @@ class Check:
               f'discharged={tot["discharged"]} queries={tot["queries"]} solver_s={tot["solver_s"]:.1f} '
               f'wall={wall:.1f}s exit={code}')
         for i in self.inconclusive[:10]:
-            print('INCONCLUSIVE:', i[:600])
+            print('INCONCLUSIVE:', i[:2000])
         return code
 
     def _replay(self, rec, key):
